@@ -308,6 +308,34 @@ def judge(cfg, acc):
                 bad("reservations_range", "chip %r: reservation outside the "
                     "core range: %r" % (xy, cover))
                 return
+        # ---- the single-purpose probes and the one-call machine model
+        if len(sim.chips) <= 6:
+            import warnings
+            try:
+                for xy, c in sorted(live.items())[:3]:
+                    wl = s.mc.get_working_links(*xy)
+                    nc = s.mc.get_num_working_cores(*xy)
+                    if set(int(l) for l in wl) != set(c.links) or \
+                            nc != c.num_cpus:
+                        bad("single_probe", "chip %r: get_working_links %r, "
+                            "get_num_working_cores %r; the chip has links %r "
+                            "and %d cores" % (xy, sorted(int(l) for l in wl),
+                                              nc, sorted(c.links),
+                                              c.num_cpus))
+                        return
+                with warnings.catch_warnings():
+                    warnings.simplefilter("ignore")
+                    m2 = s.mc.get_machine()
+            except Exception as e:
+                bad("exception", "single probes / get_machine raised %s: %s"
+                    % (type(e).__name__, e), exc=type(e).__name__)
+                return
+            if (m2.width, m2.height) != (w, h) or set(m2) != set(live) or \
+                    any(dict(m2[xy]) != dict(m[xy]) for xy in live) or \
+                    set(m2.dead_links) != set(m.dead_links):
+                bad("get_machine", "get_machine() gives %r, the model built "
+                    "from the description is %r" % (m2, m))
+                return
         edited_description(si, live, w, h, bad)
 
 
